@@ -5,7 +5,9 @@ import (
 	"fmt"
 	"os"
 	"path/filepath"
+	"runtime/debug"
 	"strconv"
+	"strings"
 	"time"
 
 	"tsim/ag"
@@ -24,7 +26,7 @@ func registry() *kernel.Registry {
 		MinProbes:   map[string][]string{},
 		UnstableSUT: map[string]int{"C14": 8},
 		Weights: map[string]map[string]int{
-			"C14": {"xr": 8}, "C01": {"xr": 5}, "C02": {"xr": 5}, "C05": {"xr": 5}, "C07": {"tm": 4}, "C13": {"xr": 3}, "C19": {"xr": 2}, "C17": {"ag": 3},
+			"C14": {"xr": 8, "ethpow": 2}, "C10": {"eth": 5}, "C01": {"xr": 5}, "C02": {"xr": 5}, "C05": {"xr": 5}, "C07": {"tm": 4}, "C13": {"xr": 3}, "C19": {"xr": 2}, "C17": {"ag": 3},
 		},
 	}
 	reg.Components["xr"] = [2][]string{
@@ -60,14 +62,58 @@ func verifDir() string {
 }
 
 func main() {
+	// hygiene: the SDK keyring's secret-service back end would auto-launch a dbus-daemon per process that
+	// is never reaped, and the ETH client's look-ahead ethash goroutine leaves 17 MB cache files in the temp
+	// directory: no session bus, and a private temp directory that is removed at exit.
+	if os.Getenv("DBUS_SESSION_BUS_ADDRESS") == "" {
+		os.Setenv("DBUS_SESSION_BUS_ADDRESS", "unix:path=/nonexistent")
+	}
+	code, tmp := 0, ""
+	if len(os.Args) > 1 && os.Args[1] != "replica" && os.Args[1] != "check" {
+		if dir, err := os.MkdirTemp("/var/tmp", fmt.Sprintf("tsim-tmp-%d-*", os.Getpid())); err == nil {
+			os.Setenv("TMPDIR", dir)
+			tmp = dir
+		}
+	}
+	defer func() {
+		if r := recover(); r != nil {
+			fmt.Fprintf(os.Stderr, "HARNESS: panic: %v\n%s\n", r, debug.Stack())
+			code = 2
+		}
+		if tmp != "" {
+			os.RemoveAll(tmp)
+		}
+		os.Exit(code)
+	}()
+	if len(os.Args) > 1 && os.Args[1] == "check" {
+		sweepTemp()
+	}
+	code = run()
+}
+
+// sweepTemp removes private temp directories and stream files of tsim processes that no longer exist (killed workers).
+func sweepTemp() {
+	ds, _ := filepath.Glob("/var/tmp/tsim-tmp-*")
+	for _, d := range ds {
+		parts := strings.Split(filepath.Base(d), "-")
+		if len(parts) < 4 {
+			continue
+		}
+		if _, err := os.Stat("/proc/" + parts[2]); os.IsNotExist(err) {
+			os.RemoveAll(d)
+		}
+	}
+}
+
+func run() int {
 	reg := registry()
 	if len(os.Args) < 2 {
 		fmt.Fprintln(os.Stderr, "usage: tsim check <Cnn> <quick|thorough> | replay [--quiet] <file> | one <seed> <i> <Cnn> [scenario]")
-		os.Exit(2)
+		return 2
 	}
 	switch os.Args[1] {
 	case "check":
-		os.Exit(kernel.Check(reg, os.Args[2], os.Args[3], verifDir()))
+		return kernel.Check(reg, os.Args[2], os.Args[3], verifDir())
 	case "worker":
 		a := os.Args[2:]
 		base, _ := strconv.ParseInt(a[3], 10, 64)
@@ -82,7 +128,7 @@ func main() {
 		if path == "--quiet" {
 			quiet, path = true, os.Args[3]
 		}
-		os.Exit(kernel.Replay(reg, path, quiet))
+		return kernel.Replay(reg, path, quiet)
 	case "replica":
 		node.ReplicaMain(os.Args[2])
 	case "fp":
@@ -92,7 +138,7 @@ func main() {
 		fmt.Printf("%s %s %d %s\n", res.LogHash, res.SchedHash, len(res.Violations), res.Harness)
 	case "selftest":
 		n, _ := strconv.Atoi(os.Args[3])
-		os.Exit(kernel.SelfTestDeterminism(reg, os.Args[2], n))
+		return kernel.SelfTestDeterminism(reg, os.Args[2], n)
 	case "one":
 		seed, _ := strconv.ParseInt(os.Args[2], 10, 64)
 		i, _ := strconv.Atoi(os.Args[3])
@@ -108,6 +154,7 @@ func main() {
 		fmt.Println(len(p.Ops), string(kernel.MustJSON(res)))
 	default:
 		fmt.Fprintln(os.Stderr, "unknown command")
-		os.Exit(2)
+		return 2
 	}
+	return 0
 }
